@@ -672,6 +672,8 @@ def check_c13():
              "PpCore.tla for every source (invariant C13)",
         samples=[dict(src=meta[len(meta) // 3][0]["src"], le=meta[len(meta) // 3][1])],
     ))
+    from cli_engine import cli_layer
+    cli_layer(rep, "C13", workdir("C13-cli"))
     rep.finish()
 
 
